@@ -317,11 +317,32 @@ def r7_lost_wakeup(ctx):
             en = [x for x in body.calls(True) if x.norm.endswith("Notified::enable")]
             # between creating the future and the await there must be an enable() and then an is_closed() check
             flag_after = False
-            for cc in conds.all():
-                if cc.kind == "bool" and is_call_term(cc.term, S + "is_closed"):
-                    for e in en:
-                        if cfg.dominates(e.bb, cc.block) and cfg.dominates(c.bb, e.bb):
-                            flag_after = True
+            # where the future is finally waited on: the select!/await whose operands include this notified()
+            waits = []
+            for x in body.calls(True):
+                if x.bb == c.bb or not (x.norm.endswith("future::poll_fn") or x.norm.endswith("Future::poll") or x.norm.endswith("IntoFuture::into_future")):
+                    continue
+                ts = []
+                for a in x.args:
+                    front = [o.of_operand(a)]
+                    seen_l = set()
+                    for _ in range(4):      # look through pinned / tuple-packed locals (tokio::pin!, select!'s `futures`)
+                        nxt = []
+                        for t0 in front:
+                            ts.append(t0)
+                            for s in subterms(t0):
+                                if isinstance(s, tuple) and s and s[0] == "var" and len(s) > 2 and s[2] not in seen_l:
+                                    seen_l.add(s[2])
+                                    nxt.append(o.init_of(s[2]))
+                        front = nxt
+                if any(isinstance(s, tuple) and s and s[0] == "call" and s[2] == c.bb and s[1].endswith("Notify::notified") for t in ts for s in subterms(t)):
+                    waits.append(x.bb)
+            checks = [cc.block for cc in conds.all() if cc.kind == "bool" and is_call_term(cc.term, S + "is_closed")]
+            for e in en:
+                if cfg.dominates(c.bb, e.bb) and waits and checks:
+                    okp, _p = cfg.must_pass(cfg.succ(e.bb), waits, via_blocks=checks)
+                    if okp:
+                        flag_after = True
             in_loop = cfg.in_cycle(c.bb)
             ok = bool(en) and flag_after
             ctx.ob("R09.7", "%s|notified(close_notify)" % owner, ok, c.site,
@@ -396,6 +417,8 @@ def r5b_giveup_goes_straight_to_close(ctx):
 
 
 def run(ctx):
+    from . import C08
+    C08.r2_single_sender_owner(ctx)   # close() drops *the* inbound sender of every stream: a second owner (a cached clone) keeps a blocked reader from ever seeing end-of-stream
     r9_write_errors_funnel(ctx)
     r5b_giveup_goes_straight_to_close(ctx)
     r1_locks(ctx)
